@@ -54,6 +54,11 @@ CheckProblem(e) ==
       ex == IF Exemplar(e.schema) THEN Verdict(e.env, e.schema, ExampleOf(e.schema), e.opt) ELSE "unspec" IN
   IF e.ok THEN (IF st = "reject" THEN "check-accepts-a-rule-misuse" ELSE IF ex = "reject" THEN "check-accepts-a-violating-example" ELSE "ok")
   ELSE IF st = "accept" /\ ex = "accept" /\ TypesSound(e) THEN "check-rejects-a-sound-schema" ELSE "ok"
+RECURSIVE HasDupKeys(_)
+HasDupKeys(v) ==
+  CASE v.t = "obj" -> (\E i, j \in DOMAIN v.ps : i < j /\ v.ps[i].k = v.ps[j].k) \/ (\E i \in DOMAIN v.ps : HasDupKeys(v.ps[i].v))
+    [] v.t = "arr" -> \E i \in DOMAIN v.items : HasDupKeys(v.items[i])
+    [] OTHER -> FALSE
 Problem(e) ==
   CASE e.op = "check" -> CheckProblem(e)
     [] e.op = "validate" ->
@@ -68,6 +73,7 @@ Problem(e) ==
     [] e.op = "example" ->
          IF J!RefVerdict(J!RefRun(J!RefInit, e.bytes, FALSE)) # "accept" THEN "malformed"
          ELSE IF ~e.parsed THEN "ok"                                   \* (unreachable: well-formed text always parses)
+         ELSE IF HasDupKeys(e.value) THEN "duplicate-keys"              \* one object, one value per key: no schema accepts both
          ELSE IF Verdict(e.env, e.schema, e.value, e.opt) = "reject" THEN "not-self-accepted"
          ELSE IF IsPlain(e.schema) /\ e.value # ExampleOf(e.schema) THEN "not-the-example"
          ELSE IF IsPlain(e.schema) /\ J!HasOuterWs(J!RefInit, e.bytes) THEN "whitespace-kept"
